@@ -1,29 +1,295 @@
+// verifcheck decides the structural clauses of one property from /repo's current sources (static analysis only).
 package main
 
 import (
+	"bufio"
+	"encoding/json"
+	"flag"
 	"fmt"
 	"os"
+	"path/filepath"
+	"runtime/debug"
+	"sort"
+	"strconv"
+	"strings"
 	"time"
 
-	"golang.org/x/tools/go/packages"
-	"golang.org/x/tools/go/ssa"
-	"golang.org/x/tools/go/ssa/ssautil"
+	"verif/checker/internal/core"
+	"verif/checker/internal/rules"
 )
 
-func main() {
-	t0 := time.Now()
-	cfg := &packages.Config{Mode: packages.LoadSyntax, Dir: "/repo", Tests: false}
-	pkgs, err := packages.Load(cfg, "./...")
+type finding struct{ prop, key, text string }
+
+func loadFindings(path string) ([]finding, error) {
+	f, err := os.Open(path)
 	if err != nil {
-		fmt.Println(err)
+		return nil, err
+	}
+	defer f.Close()
+	var out []finding
+	sc := bufio.NewScanner(f)
+	sc.Buffer(make([]byte, 1<<20), 1<<20)
+	for sc.Scan() {
+		l := strings.TrimSpace(sc.Text())
+		if !strings.HasPrefix(l, "finding:") {
+			continue
+		}
+		rest := strings.TrimSpace(strings.TrimPrefix(l, "finding:"))
+		parts := strings.SplitN(rest, " ", 3)
+		if len(parts) < 3 || !strings.HasPrefix(parts[0], "property=") || !strings.HasPrefix(parts[1], "key=") {
+			return nil, fmt.Errorf("malformed finding line: %s", l)
+		}
+		out = append(out, finding{strings.TrimPrefix(parts[0], "property="), strings.TrimPrefix(parts[1], "key="), parts[2]})
+	}
+	return out, sc.Err()
+}
+
+func writeReplay(verif, prop string, n *int, o core.Obligation, skip bool) string {
+	*n++
+	if skip {
+		return "-"
+	}
+	dir := filepath.Join(verif, "evidence", "violations")
+	_ = os.MkdirAll(dir, 0o755)
+	replay := filepath.Join(dir, fmt.Sprintf("%s_%d.json", prop, *n))
+	b, _ := json.MarshalIndent(o, "", " ")
+	_ = os.WriteFile(replay, b, 0o644)
+	return replay
+}
+
+func main() {
+	prop := flag.String("prop", "", "property id (C01..C20)")
+	tier := flag.String("tier", "quick", "quick|thorough")
+	repo := flag.String("repo", "/repo", "repository root")
+	verif := flag.String("verif", "/verif", "verification root")
+	overlayF := flag.String("overlay", "", "JSON file {relpath: content} applied in memory (self-test mutants)")
+	noEvidence := flag.Bool("no-evidence", false, "do not write evidence / violation files (self-test)")
+	onlyRule := flag.String("rule", "", "run only this rule (self-test / explain)")
+	list := flag.Bool("list", false, "list properties and rules")
+	flag.Parse()
+
+	if *list {
+		ids := []string{}
+		for id := range rules.Registry {
+			ids = append(ids, id)
+		}
+		sort.Strings(ids)
+		for _, id := range ids {
+			for _, r := range rules.Registry[id].Rules {
+				fmt.Printf("%s %s floor=%d\n", id, r.ID, r.Floor)
+			}
+		}
+		return
+	}
+	p := rules.Registry[*prop]
+	if p == nil {
+		fmt.Fprintf(os.Stderr, "unknown property %q\n", *prop)
 		os.Exit(2)
 	}
-	n := 0
-	for _, p := range pkgs {
-		n += len(p.Errors)
+	t0 := time.Now()
+	seed := 0
+	if s := os.Getenv("VERIF_SEED"); s != "" {
+		seed, _ = strconv.Atoi(s)
 	}
-	fmt.Println(len(pkgs), "pkgs", n, "errs", time.Since(t0))
-	prog, spkgs := ssautil.Packages(pkgs, ssa.InstantiateGenerics)
-	prog.Build()
-	fmt.Println(len(spkgs), time.Since(t0))
+	var overlay map[string][]byte
+	if *overlayF != "" {
+		b, err := os.ReadFile(*overlayF)
+		if err != nil {
+			fmt.Fprintln(os.Stderr, err)
+			os.Exit(2)
+		}
+		m := map[string]string{}
+		if err := json.Unmarshal(b, &m); err != nil {
+			fmt.Fprintln(os.Stderr, err)
+			os.Exit(2)
+		}
+		overlay = map[string][]byte{}
+		for k, v := range m {
+			overlay[k] = []byte(v)
+		}
+	}
+
+	fail := func(msg string) {
+		fmt.Printf("CHECK-ERROR property=%s %s\n", p.ID, msg)
+		os.Exit(2)
+	}
+	c, err := core.Load(*repo, overlay)
+	if err != nil {
+		fail(err.Error())
+	}
+	c.Tier = *tier
+
+	type ruleStat struct {
+		Rule        string `json:"rule"`
+		Text        string `json:"text"`
+		Floor       int    `json:"floor"`
+		Obligations int    `json:"obligations"`
+		Held        int    `json:"held"`
+		Violated    int    `json:"violated"`
+		Undecided   int    `json:"undecided"`
+	}
+	var stats []ruleStat
+	var problems []string
+	for _, r := range p.Rules {
+		if *onlyRule != "" && r.ID != *onlyRule {
+			continue
+		}
+		if r.Thorough && *tier != "thorough" {
+			continue
+		}
+		before := len(c.Obls)
+		func() {
+			defer func() {
+				if e := recover(); e != nil {
+					c.Undecide(r.ID, "panic", 0, fmt.Sprintf("rule panicked: %v\n%s", e, debug.Stack()))
+				}
+			}()
+			r.Run(c)
+		}()
+		st := ruleStat{Rule: r.ID, Text: r.Text, Floor: r.Floor}
+		for _, o := range c.Obls[before:] {
+			st.Obligations++
+			switch o.Status {
+			case "held":
+				st.Held++
+			case "violated":
+				st.Violated++
+			default:
+				st.Undecided++
+			}
+		}
+		if st.Obligations < r.Floor {
+			problems = append(problems, fmt.Sprintf("rule %s matched %d instances, below the confirmed floor %d (vacuous)", r.ID, st.Obligations, r.Floor))
+		}
+		stats = append(stats, st)
+	}
+
+	known, err := loadFindings(filepath.Join(*verif, "known_findings.txt"))
+	if err != nil {
+		fail("known_findings.txt: " + err.Error())
+	}
+	isKnown := func(o core.Obligation) *finding {
+		for i := range known {
+			if known[i].prop == p.ID && known[i].key == o.Key() {
+				return &known[i]
+			}
+		}
+		return nil
+	}
+
+	total, held, viol, und, knownN, nrep := 0, 0, 0, 0, 0, 0
+	distinct := map[string]bool{}
+	var samples []core.Obligation
+	var lines []string
+	perRuleSample := map[string]int{}
+	exit := 0
+	for _, o := range c.Obls {
+		total++
+		distinct[o.Key()] = true
+		switch o.Status {
+		case "held":
+			held++
+			if perRuleSample[o.Rule] < 3 {
+				perRuleSample[o.Rule]++
+				samples = append(samples, o)
+			}
+		case "violated":
+			if k := isKnown(o); k != nil {
+				knownN++
+				lines = append(lines, fmt.Sprintf("KNOWN-FINDING: property=%s %s at %s: %s", p.ID, o.Key(), o.Pos, k.text))
+				samples = append(samples, o)
+				continue
+			}
+			viol++
+			samples = append(samples, o)
+			replay := writeReplay(*verif, p.ID, &nrep, o, *noEvidence)
+			lines = append(lines, fmt.Sprintf("  violated %s at %s: %s", o.Key(), o.Pos, o.Msg))
+			lines = append(lines, fmt.Sprintf("VIOLATION property=%s replay=%s", p.ID, replay))
+			exit = 1
+		default:
+			// An obligation the rule could not establish is not proven: the check fails (DESIGN.md section 7).
+			und++
+			samples = append(samples, o)
+			lines = append(lines, fmt.Sprintf("  UNDECIDED %s at %s: %s", o.Key(), o.Pos, o.Msg))
+			lines = append(lines, fmt.Sprintf("VIOLATION property=%s replay=%s", p.ID, writeReplay(*verif, p.ID, &nrep, o, *noEvidence)))
+			exit = 1
+		}
+	}
+	for _, pr := range problems {
+		o := core.Obligation{Rule: "vacuity", Construct: pr, Status: "undecided", Msg: pr}
+		lines = append(lines, fmt.Sprintf("  VACUOUS %s", pr))
+		lines = append(lines, fmt.Sprintf("VIOLATION property=%s replay=%s", p.ID, writeReplay(*verif, p.ID, &nrep, o, *noEvidence)))
+		exit = 1
+	}
+	for _, l := range lines {
+		fmt.Println(l)
+	}
+	var selfRes []MutantResult
+	if *tier == "thorough" && *overlayF == "" && *onlyRule == "" {
+		self, _ := os.Executable()
+		var ok bool
+		selfRes, ok = runSelfTest(self, *repo, *verif, p.ID)
+		caught := 0
+		for _, r := range selfRes {
+			if r.OK {
+				caught++
+			} else {
+				fmt.Printf("  SELFTEST %s (%s): %s\n", r.ID, r.Rule, r.Detail)
+			}
+		}
+		fmt.Printf("selftest: %d/%d seeded variants behave as expected\n", caught, len(selfRes))
+		if !ok {
+			// a rule that no longer fires on its seeded violation is not armed: the check itself is broken
+			fmt.Printf("CHECK-ERROR property=%s armed-rule self-test failed\n", p.ID)
+			os.Exit(2)
+		}
+	}
+	funcs := make([]string, 0, len(c.FuncsSeen))
+	for f := range c.FuncsSeen {
+		funcs = append(funcs, strings.ReplaceAll(f, core.Mod+"/", ""))
+	}
+	sort.Strings(funcs)
+	wall := time.Since(t0).Seconds()
+	fmt.Printf("property=%s tier=%s packages=%d rules=%d obligations=%d held=%d violated=%d known=%d undecided=%d wall=%.1fs\n",
+		p.ID, *tier, len(c.Pkgs), len(stats), total, held, viol, knownN, und, wall)
+	for _, s := range stats {
+		fmt.Printf("  rule %-22s obligations=%-3d held=%-3d violated=%-2d undecided=%-2d floor=%d\n", s.Rule, s.Obligations, s.Held, s.Violated, s.Undecided, s.Floor)
+	}
+
+	if !*noEvidence {
+		ev := map[string]any{
+			"property_id": p.ID,
+			"tier":        *tier,
+			"seed":        seed,
+			"level":       p.Level,
+			"wall_s":      wall,
+			"violations":  viol,
+			"assumptions": p.Assumptions,
+			"coverage": map[string]any{
+				"explanation": p.Explanation,
+				"obligations": total,
+				"discharged":  held,
+				"known_findings": knownN,
+				"undecided":   und,
+				"checker_cmd": fmt.Sprintf("/verif/run.sh %s %s", p.ID, *tier),
+				"trusted_base": p.Trusted,
+				"evaluations": total,
+				"distinct_nontrivial": len(distinct),
+				"rule": "one obligation per rule instance (call site, method, store, table, field, path) found in /repo's current type-checked sources; distinct = distinct rule|construct keys; every obligation is non-trivial in that it is a construct of the real program matched by object identity",
+				"samples":            samples,
+				"rules":              stats,
+				"packages_loaded":    len(c.Pkgs),
+				"functions_analysed": funcs,
+				"exhaustive":         true,
+				"selftest":           selfRes,
+			},
+		}
+		b, _ := json.MarshalIndent(ev, "", " ")
+		dir := filepath.Join(*verif, "evidence")
+		_ = os.MkdirAll(dir, 0o755)
+		if err := os.WriteFile(filepath.Join(dir, p.ID+".json"), b, 0o644); err != nil {
+			fail(err.Error())
+		}
+	}
+	os.Exit(exit)
 }
